@@ -2,16 +2,16 @@
 REGISTRY = {
     'C01': ['base_core', 'handles', 'connect', 'result'],
     'C06': ['base_core', 'handles', 'connect'],
-    'C02': ['core', 'result'],
-    'C03': ['base_core', 'handles', 'core', 'event', 'strand', 'when', 'intrusive_ptr', 'connect', 'ownership'],
+    'C02': ['core', 'result', 'entry'],
+    'C03': ['base_core', 'handles', 'core', 'event', 'strand', 'when', 'intrusive_ptr', 'connect', 'ownership', 'entry'],
     'C04': ['base_core', 'strand', 'event', 'coro_mutex', 'spinlock'],
-    'C05': ['thread_pool', 'strand', 'core', 'handles', 'ownership'],
+    'C05': ['thread_pool', 'strand', 'core', 'handles', 'ownership', 'entry'],
     'C07': ['strand'],
     'C08': ['thread_pool'],
     'C09': ['when'],
     'C10': ['any', 'when'],
     'C11': ['wait', 'event', 'base_core'],
-    'C12': ['core', 'handles'],
+    'C12': ['core', 'handles', 'entry'],
     'C13': ['coro', 'base_core', 'event'],
     'C14': ['coro_mutex', 'guards'],
     'C15': ['shared_mutex', 'coro_mutex', 'guards', 'spinlock'],
@@ -172,7 +172,9 @@ CLAIMS = {
         'text': 'Lazy branch of detail::SetCallback proved to have no effect (zero SetInline / Loop / Submit / functor calls; only links the new '
                 'step behind its predecessor and records it as the predecessor\'s continuation), MoveToCaller over a chain of symbolic length '
                 '(returns the head, clears every traversed link), the Task branch of CallResolveAsync (head receives the continuation, then is '
-                'started through Step), Core::Call / Drop / Impl shared with the eager pipeline (so C02 applies once started).',
+                'started through Step), Core::Call / Drop / Impl shared with the eager pipeline (so C02 applies once started). '
+                'Unit entry: detail::Schedule builds the head (one core from the functor, executor retained once and stored without a second retain, handle adopts) and does NOT submit it; '
+                'detail::Run / RunShared are the same plus exactly one Submit after the core is completely set up.',
         'note': 'Task::Cancel/Detach/ToFuture/Get and Start are in unit handles when registered; "same Result as the eager twin" is the lemma '
                 'that a started chain runs the C02-verified functions.',
         'design': 'DESIGN.md 6 C12',
